@@ -1442,6 +1442,12 @@ class SymArray(_np.ndarray):
             if axis is None:
                 a = a.reshape(-1)
                 axis = 0
+            if isinstance(axis, tuple):
+                # reduce over several axes one at a time (an empty tuple reduces nothing)
+                r = a.view(SymArray)
+                for ax in sorted((x % a.ndim for x in axis), reverse=True):
+                    r = self.__array_ufunc__(ufunc, 'reduce', r, axis=ax)
+                return r if not keepdims else _wrap(_np.expand_dims(_objarr(r), tuple(sorted(x % a.ndim for x in axis))))
             if a.ndim == 0:
                 r = a
             elif a.shape[axis] == 0 or initial is not _np._NoValue:
